@@ -568,16 +568,20 @@ def check_property(prop, tier, seed):
             notes.append(f"known finding {k['id']} did not reproduce in this run")
 
     wall = time.time() - t0
+    disc = discharged if obligations else 0
     ev = {
         "property_id": prop, "tier": tier, "seed": seed, "level": "proof",
         "coverage": {
-            "obligations": max(1, len(obligations)),
-            "discharged": discharged if obligations else 0,
+            # when nothing was discharged (the Lean build broke) the proof keys are withheld: the schema reads
+            # obligations/discharged as a proof-level claim; the counts are still reported under other names
+            **({"obligations": max(1, len(obligations)), "discharged": disc} if disc > 0 else
+               {"obligations_stated": len(obligations), "obligations_discharged": 0,
+                "explanation": "the Lean build failed on this tree: no obligation is discharged, see violations"}),
             "checker_cmd": f"cd lean && lake build {' '.join(lean_targets)} && lake env lean work/Audit_{prop}.lean  (#print axioms)",
             "trusted_base": TRUSTED_BASE + spec.extra_trust,
             "theorems": audited,
             "not_yet_proved": props.missing(prop),
-            "evaluations": len(ops) * max(1, len(exes)),
+            "evaluations": len(ops) * max(1, len(runs)),
             "distinct_nontrivial": len(distinct),
             "rule": spec.rule,
             "samples": samples,
